@@ -19,10 +19,10 @@ def stage(fn, *a, **kw):
     return f
 
 
-def sized(prop, tier, name, ops, nslots, nblocks, frames, hows=("new", "newB", "unique"), simulate=None, harness_cfg="a"):
+def sized(prop, tier, name, ops, nslots, nblocks, frames, hows=("new", "newB", "unique"), simulate=None, harness_cfg="a", cats=None):
     cfg = S.sized_cfg(ops, nslots, nblocks, frames, list(hows))
     return stage(S.graph_replay, prop, tier, name, "sized", "MC_Sized.tla", SIZED_MODULES, cfg, nslots, simulate=simulate,
-                 harness_cfg=harness_cfg)
+                 harness_cfg=harness_cfg, cats=cats)
 
 
 ALL_SIZED = BASE + CONV + BORROW + UNIQ + COW + UNWRAP
@@ -107,7 +107,12 @@ def c05(tier, seed):
                   only_cats={"overrun", "layout", "baddrop"}),
             # "freed once, when the last handle goes away" along histories with panicking Clone / callbacks
             sized("C05", tier, "sized_release_" + tier[0], BASE + CONV_CORE + ["MakeMut", "UnwrapOrClone", "Enter", "Exit", "TryUnwrap"],
-                  3 if tier == "quick" else 4, 2, 1, hows=("new", "newB"))]
+                  3 if tier == "quick" else 4, 2, 1, hows=("new", "newB")),
+            # ... and along schedules: every release path the running code takes (including the one make_mut and
+            # unwrap_or_clone perform after the clone) must free the block when it turns out to be the last
+            mm("C05", tier, "mm_release_" + tier[0], [("c05_2x3", ["clone", "drop", "make_mut"], 2, 3, 2, False)] if tier == "quick" else
+               [("c05_2x3", ["clone", "drop", "make_mut"], 2, 3, 2, False), ("c05_2x3u", ["clone", "drop", "unwrap_or_clone", "try_unwrap"], 2, 3, 2, False),
+                ("c05_3x2", ["clone", "drop", "make_mut"], 3, 2, 1, False)])]
 
 
 def c11(tier, seed):
@@ -291,14 +296,21 @@ def c04(tier, seed):
                 stage(CT.ctor_stage, "C04", tier, "observers_t", ["observe"], True, only_cats=["count", "crash"])] + swaps("C04", tier, seed) + long_walks("C04", tier, seed)
 
 
+# what can be compared when payloads have no destructor to report from
+PLAIN_CATS = ["kind", "block", "frame", "verdict", "ncl", "seen", "value", "ident", "count", "stray", "frees", "panicked"]
+
+
 def c08(tier, seed):
     ops = BASE + CONV_CORE + COW + ["Borrow", "Enter", "Exit", "GetMut"]
     mops = ["clone", "read", "drop", "make_mut"]
     if tier == "quick":
         return [sized("C08", tier, "sized_cow_q", ops, 3, 3, 1, hows=("new", "newB")),
+                # the same graph with payloads that have no drop glue (4 KB and 12 bytes): their Clone is still a call
+                sized("C08", tier, "sized_cow_plain_q", BASE + COW + ["GetMut", "IntoOff", "FromOff"], 3, 3, 1, hows=("new", "newB"), harness_cfg="p", cats=PLAIN_CATS),
                 mm("C08", tier, "mm_cow_q", [("c08_2x3", mops, 2, 3, 2, False), ("c08_3x2", mops, 3, 2, 1, False)]),
                 tr("C08", tier, "threads_q", seed), inj("C08", tier), lay("C08", tier, "layout_matrix_q")] + swaps("C08", tier, seed, hows=("init",))
     return [sized("C08", tier, "sized_cow_t", ops, 4, 3, 1, hows=("new", "newB")),
+            sized("C08", tier, "sized_cow_plain_t", ops, 3, 3, 1, hows=("new", "newB"), harness_cfg="p", cats=PLAIN_CATS),
             mm("C08", tier, "mm_cow_t", [("c08_2x4", mops, 2, 4, 2, False), ("c08_3x2", mops, 3, 2, 2, False),
                                          # three threads x three calls without the plain read (270 M states with it: an hour)
                                          ("c08_3x3", ["clone", "drop", "make_mut"], 3, 3, 1, False)]),
@@ -311,11 +323,15 @@ def c09(tier, seed):
     if tier == "quick":
         return [sized("C09", tier, "sized_unwrap_q", ops, 3, 2, 1),
                 mm("C09", tier, "mm_unwrap_q", [("c09_2x3", mops, 2, 3, 2, False), ("c09_3x2", mops, 3, 2, 1, False)]),
-                tr("C09", tier, "threads_q", seed), inj("C09", tier)] + swaps("C09", tier, seed, hows=("init",))
+                tr("C09", tier, "threads_q", seed), inj("C09", tier),
+            # unwrapping every payload shape (zero-sized, over-aligned, large) returns the block with its layout
+            lay("C09", tier, "layout_matrix_" + tier[0])] + swaps("C09", tier, seed, hows=("init",))
     return [sized("C09", tier, "sized_unwrap_t", ops, 4, 2, 1),
             mm("C09", tier, "mm_unwrap_t", [("c09_2x4", mops, 2, 4, 2, False), ("c09_3x2", mops, 3, 2, 2, False),
                                             ("c09_3x3", ["try_unwrap", "unwrap_or_clone", "drop"], 3, 3, 1, False)]),
-            tr("C09", tier, "threads_t", seed), inj("C09", tier)] + swaps("C09", tier, seed, hows=("init",))
+            tr("C09", tier, "threads_t", seed), inj("C09", tier),
+            # unwrapping every payload shape (zero-sized, over-aligned, large) returns the block with its layout
+            lay("C09", tier, "layout_matrix_" + tier[0])] + swaps("C09", tier, seed, hows=("init",))
 
 
 def c12(tier, seed):
@@ -371,7 +387,7 @@ LAYOUT_ASSUME = [
 ]
 
 PROPS = {
-    "C05": {"level": "model_checking", "stages": c05, "assumptions": LAYOUT_ASSUME, "replay": any_replay},
+    "C05": {"level": "model_checking", "stages": c05, "assumptions": LAYOUT_ASSUME + MM_ASSUME, "replay": any_replay},
     "C11": {"level": "model_checking", "stages": c11, "assumptions": LAYOUT_ASSUME + GRAPH_ASSUME + SWAP_ASSUME, "replay": any_replay},
     "C10": {"level": "model_checking", "stages": c10, "assumptions": GRAPH_ASSUME + LAYOUT_ASSUME + MM_ASSUME + SWAP_ASSUME, "replay": any_replay},
     "C15": {"level": "model_checking", "stages": c15, "assumptions": GRAPH_ASSUME + MM_ASSUME + SWAP_ASSUME, "replay": any_replay},
